@@ -131,6 +131,7 @@ class SimFS:
         self.stream = stream
         self.flush_threshold = flush_threshold
         self.vtime = 1_000_000.0
+        self.tick = 1.0  # virtual seconds per operation; with a small tick several files get modification times within one second
         self.ops = 0
         self.plan = {}  # op index -> ("kill" | "interrupt" | "enospc" | "eio")
         self.frozen = False
@@ -150,7 +151,7 @@ class SimFS:
             return "frozen"
         idx = self.ops
         self.ops += 1
-        self.vtime += 1.0
+        self.vtime += self.tick
         self.log.append((idx, kind, _os.path.basename(path), nbytes))
         what = self.plan.get(idx)
         if what is None:
